@@ -32,7 +32,7 @@ SKIP = {"append_file", "write_file", "read_file", "read_file?", "read_file_bytes
 
 POOL = [
     ("null", "null"), ("int0", "0"), ("int1", "1"), ("intneg", "(-1)"), ("int2", "2"),
-    ("i64max", "9223372036854775807"), ("i64min", "(-9223372036854775808)"), ("bigint", "(2^64)"),
+    ("i64max", "9223372036854775807"), ("i64min", "(-9223372036854775808)"), ("bigint", "(2^64)"), ("bigrep2", "((2^70+2)-2^70)"),
     ("rational", "(1/2)"), ("float", "0.5"), ("negzero", "(-0.0)"), ("inf", "(1.0/0.0)"), ("nan", "(0.0/0.0)"), ("complex", "(1+2i)"),
     ("emptystr", '""'), ("str", '"a"'), ("uchar", '"é"'), ("ustr", '"héllo wörld"'),
     ("emptylist", "[]"), ("list", "[1, 2, 3]"), ("nested", "[[1, 2], [3]]"), ("mixed", '[1, "a", null]'),
@@ -42,12 +42,12 @@ POOL = [
     ("builtin", "(+)"), ("closure", "(\\x -> x)"), ("type", "int"), ("instance", "Foo(1, [2])"),
 ]
 RISKY = {"i64max", "i64min", "bigint", "inf", "infstream"}
-QUICK = ["null", "int0", "intneg", "int2", "i64max", "rational", "nan", "str", "uchar", "emptylist", "list", "dict", "vector", "badutf8",
+QUICK = ["null", "int0", "intneg", "int2", "bigrep2", "i64max", "rational", "nan", "str", "uchar", "emptylist", "list", "dict", "vector", "badutf8",
          "stream", "infstream", "closure"]
 SUB3 = ["null", "int0", "intneg", "int2", "float", "str", "uchar", "emptylist", "list", "dict", "stream", "closure", "i64min"]
 SUB3_QUICK = ["int0", "intneg", "str", "list", "closure", "null"]
-# a lazily built result is advanced (up to 40 elements) inside the try: a stream that can only fail when consumed has not "ended with a value"
-PRE = ["struct Foo (a, b)", "force_ := \\v -> (if (v is stream) list(v take 40) else v)"] + ["p_%s := %s" % (n, s) for n, s in POOL]
+# a lazily built result is measured (len, truthiness, last index, slices) and advanced (up to 40 elements) inside the try: a stream that can only fail when consumed has not "ended with a value"
+PRE = ["struct Foo (a, b)", "force_ := \\v -> (if (v is stream) (try len(v) catch _ -> 0; try (not v) catch _ -> 0; try v[1:2] catch _ -> 0; try (if (len(v) < 1000) [v[-1], v[-2:]]) catch _ -> 0; list(v take 40)) else v)"] + ["p_%s := %s" % (n, s) for n, s in POOL]
 
 TEMPLATES = [
     ("index", "{A}[{B}]", 2), ("slice", "{A}[{B}:{C}]", 3), ("slice_open", "{A}[{B}:]", 2),
@@ -78,7 +78,9 @@ TEMPLATES = [
     ("struct_new", "Foo({A})", 1), ("struct_new2", "Foo({A}, {B}, {C})", 3), ("struct_field", "q := Foo({A}, {B}); q[a]", 2),
     ("struct_assign", "q := Foo(1, 2); q[a] = {A}; q[{B}] = 1", 2),
     ("compare_chain", "{A} < {B} <= {C}", 3), ("arith_chain", "{A} + {B} * {C}", 3), ("divmod", "[{A} // {B}, {A} % {B}, {A} %% {B}, {A} /! {B}]", 2),
-    ("pow", "{A} ^ {B}", 2), ("shift", "[{A} << {B}, {A} >> {B}]", 2), ("range", "{A} til {B} by {C}", 3), ("range_list", "list({A} to {B})", 2),
+    ("pow", "{A} ^ {B}", 2), ("shift", "[{A} << {B}, {A} >> {B}]", 2), ("range", "force_({A} til {B} by {C})", 3), ("range_to", "force_({A} to {B} by {C})", 3), ("range_list", "list({A} to {B})", 2),
+    ("range_unpack", "a, b := {A} til {B} by {C}", 3), ("range_only", "only({A} to {B} by {C})", 3), ("range_zip", "({A} til {B} by {C}) zip [1, 2]", 3),
+    ("range_in", "{A} in ({B} til {C})", 3), ("iota_by", "force_(iota({A}, {B}))", 2),
     ("precedence", "f := \\a, b -> a; f::precedence = {A}; 1 f 2", 1), ("freeze", "freeze (\\q -> q + {A})", 1),
 ]
 
